@@ -13,8 +13,9 @@ call returns the right value (0 after a failed init), and a logical deadlock
 detector (all unfinished threads recorded as waiting + no progress).
 The same harness is also built with TSan (observation only: the header's
 unsynchronised fast-path reads are intentional).
-Real-process part (thorough tier): the embedding test programs of the
-repository are out of scope here; see DESIGN.md.
+Real-process part: three libraries built with ffi.embedding_api() against the
+real libpython (slow init code; one failing), first calls raced by 2-10 threads
+of a C program; monitors: results, init-code count from a log file, stderr.
 """
 import os, sys, subprocess, re
 import concurrent.futures as cf
@@ -64,7 +65,7 @@ def run_driver(exe, first, count, heavy, env=None):
 
 def run(ctx):
     exe = build_harness(ctx)
-    n = ctx.scale(480, 100000)
+    n = ctx.scale(240, 100000)
     base = 1 + (ctx.seed * 1000003) % (2 ** 30)
     chunks = []
     per = max(50, n // 16)
@@ -106,11 +107,12 @@ def run(ctx):
         if seen != count:
             ctx.inconclusive('driver reported %d of %d scenarios' % (seen, count))
     ctx.extra['distinct_interleaving_signatures'] = len(sigs)
+    real_process_part(ctx)
     # TSan build: observations only
     try:
         texe = build_harness(ctx, 'thread')
         env = dict(os.environ, TSAN_OPTIONS='halt_on_error=0:exitcode=0', EMBED_STUB_STDERR='1')
-        lines, err = run_driver(texe, base, ctx.scale(40, 400), 0, env)
+        lines, err = run_driver(texe, base, ctx.scale(20, 400), 0, env)
         kinds = {}
         for kind, frame, block in core.split_reports(err):
             key = '%s@%s' % (kind, frame)
@@ -126,7 +128,77 @@ def run(ctx):
         ctx.note('TSan build of the harness unavailable: %s' % str(e)[:200])
 
 
+def real_process_part(ctx):
+    """The real thing: three libraries built with ffi.embedding_api() against the
+    real libpython (two with slow init code, one whose init code raises), first
+    calls raced by 2-10 threads of a C program that dlopen()s them."""
+    import glob, shutil
+    d = os.path.join(ctx.tmp, 'real')
+    os.makedirs(d, exist_ok=True)
+    log = os.path.join(d, 'init.log')
+    src = os.path.join(build.VERIF, 'harness', 'embed_real')
+    shutil.copy(os.path.join(src, 'build.py'), d)
+    shutil.copy(os.path.join(src, 'drv.c'), d)
+    env = build.child_env('plain')
+    r = subprocess.run([build.PY, 'build.py', log], cwd=d, env=env, stdout=subprocess.PIPE,
+                       stderr=subprocess.STDOUT, timeout=900)
+    r2 = subprocess.run(['gcc', 'drv.c', '-o', 'drv', '-ldl', '-lpthread'], cwd=d,
+                        stdout=subprocess.PIPE, stderr=subprocess.STDOUT)
+    libs = [glob.glob(os.path.join(d, n + '*.so')) for n in ('_c28A', '_c28B', '_c28F')]
+    if r.returncode or r2.returncode or not all(libs):
+        ctx.note('real-process part not run: build failed: ' + (r.stdout + r2.stdout).decode()[-300:])
+        ctx.count('real_process_build_failed')
+        return
+    env['PYTHONPATH'] = env['PYTHONPATH'] + os.pathsep + d
+    rng = ctx.rng('real')
+    for i in range(ctx.scale(6, 150)):
+        if os.path.exists(log):
+            os.unlink(log)
+        nth, nc, seed = rng.choice([2, 3, 5, 10]), rng.choice([1, 2, 4]), rng.getrandbits(20)
+        try:
+            p = subprocess.run(['./drv', libs[0][0], libs[1][0], libs[2][0], str(seed), str(nth),
+                                str(nc)], cwd=d, env=env, stdout=subprocess.PIPE,
+                               stderr=subprocess.PIPE, timeout=300)
+        except subprocess.TimeoutExpired:
+            ctx.inconclusive('real-process scenario: wall-clock watchdog (inconclusive)')
+            continue
+        case = {'real': True, 'seed': seed, 'threads': nth, 'calls': nc}
+        out = p.stdout.decode(errors='replace')
+        rows = [list(map(int, l.split()[1:])) for l in out.splitlines() if l.startswith('R ')]
+        ctx.case(('real', seed, nth, nc), nontrivial=True,
+                 sample={'real_process': True, 'threads': nth, 'calls_per_thread': nc,
+                         'results': rows[:6]})
+        ctx.count('real_process_scenarios')
+        if p.returncode != 0 or len(rows) != nth * nc:
+            ctx.violation('real-process:crash-or-missing-calls', 'rc=%s, %d of %d results; stderr '
+                          '%s' % (p.returncode, len(rows), nth * nc,
+                                  p.stderr.decode(errors='replace')[-400:]), case)
+            continue
+        for t, k, w, res in rows:
+            exp = 0 if w == 2 else t * 10 + k + 1000
+            if res != exp:
+                mech = 'real-process:extern-python-before-init-finished' if res == -1 else (
+                    'real-process:nonzero-result-after-failed-init' if w == 2 else
+                    'real-process:wrong-result')
+                ctx.violation(mech, 'thread %d call %d of lib %s returned %d, expected %d' %
+                              (t, k, 'ABF'[w], res, exp), case)
+        used = set(w for t, k, w, res in rows)
+        lines = open(log).read().split('\n') if os.path.exists(log) else []
+        for w, name in enumerate(('_c28A', '_c28B', '_c28F')):
+            n = lines.count('init-start ' + name)
+            if n > 1 or (w in used and n != 1):
+                ctx.violation('real-process:init-code-ran-%s' % ('twice' if n > 1 else 'never'),
+                              'init code of %s ran %d times' % (name, n), case)
+        if 2 in used and b'initialization code failed' not in p.stderr:
+            ctx.violation('real-process:failed-init-not-reported', 'no "initialization code '
+                          'failed" message for calls into the failing library', case)
+
+
 def replay(ctx, data):
+    if data['case'].get('real'):
+        print('real-process scenarios are schedule-dependent: re-running the real-process part')
+        real_process_part(ctx)
+        return
     exe = build_harness(ctx)
     case = data['case']
     for i in range(20):
